@@ -120,6 +120,11 @@ Definition dec_payload (t : tree) : option payload :=
   | T [L 1; L 0] => Some (PUn UType)
   | T [L 1; L 1; s] => s <- getZs s ;; Some (PUn (UValue s))
   | T [L 1; L 2] => Some (PUn UMarsh)
+  (* with a variant number: WHICH Go value of that kind the harness builds (chan in a map / func / anonymous struct
+     type with a tagged chan field; Marshaler failing with a plain text / with a text full of quotes, backslashes and
+     newlines).  The error text and the type name never reach the report of the current code, so the model ignores it. *)
+  | T [L 1; L 0; L _] => Some (PUn UType)
+  | T [L 1; L 2; L _] => Some (PUn UMarsh)
   | _ => None
   end.
 Definition dec_info (t : tree) : option (option info) :=
